@@ -110,10 +110,17 @@ def setEntry (s : State) (loc : Loc) (e : Entry) : State :=
 inductive Outcome | ok | err
   deriving DecidableEq, Repr
 
+/-- A closed LevelDB store fails every operation (the swap cannot happen); the memory store's Close is a no-op. -/
+def loadRefused (s : State) (e : Entry) : Bool := e.closed && s.cfg.disk
+
+/-- A refresh of a closed entry is refused: `updateEntry` does not swap into a closed entry (and a closed LevelDB store
+cannot even be asked for its locations). -/
+def refreshRefused (s : State) (e : Entry) : Bool := e.closed && (s.cfg.disk || closedEntriesSkipped)
+
 /-- `loadCRL` (first load; caller holds the entry write lock): stage, then swap and mark loaded. -/
 def loadCRL (s : State) (loc : Loc) (e : Entry) (cands : List Signer) : State × Outcome :=
   -- a closed LevelDB store fails every operation (the swap cannot happen); the memory store's Close is a no-op
-  if e.closed && s.cfg.disk then (s, .err) else
+  if loadRefused s e then (s, .err) else
   match stage s.cfg.sigMode firstLoadHonoursMode (servedAt s loc) cands with
   | .ok st d _ =>
     let e' := { e with store := st, loaded := true, chains := [] }
@@ -127,7 +134,7 @@ def refreshCands (e : Entry) : Option (List Signer) → List Signer
 
 /-- `updateCrlEntry`: refresh of a loaded entry. `newCands = none`: use the persisted signer certificate. -/
 def updateCrlEntry (s : State) (loc : Loc) (e : Entry) (newCands : Option (List Signer)) : State × Outcome :=
-  if e.closed && s.cfg.disk then (s, .err)    -- closed LevelDB store: reading the locations already fails
+  if refreshRefused s e then (s, .err)
   else if !e.store.hasLocs then (s, .err)     -- GetCRLLocations fails
   else
     let cands := refreshCands e newCands
